@@ -1,6 +1,21 @@
 CFG = dict(
      claimed=True,
-     rule="draft",
-     assumptions=["draft"],
-     technique="draft", level_text="draft", level_note="draft",
+     rule="Cases: (exported function, algorithm / parameter set, path = ok | named failure (wrong key/nonce/tag/plaintext/ciphertext size, "
+          "wrong key kind, bad tag, tampered ciphertext, bad padding under a valid tag, short input ...), message length, per-argument spare "
+          "capacity 0..64, AEAD dst form nil | separate | in place) over every exported function of crypto, crypto/aeskw, crypto/padding and "
+          "crypto/aescbcaead that takes a []byte. Every []byte argument (and the raw bytes behind a symmetric jwk.Key) is cut out of a "
+          "canary-filled backing buffer: 32-byte guard, argument bytes, spare capacity behind len, 32-byte guard; all of it is compared "
+          "bit for bit after the call, except the bytes and capacity of an explicit AEAD dst. The sweep enumerates function x algorithm "
+          "x path x lengths around block boundaries x 8 spare-capacity patterns; rapid draws the rest. Non-trivial: some read-only argument "
+          "has spare capacity and the call got past argument validation into the primitive. Distinct by the case without its random content.",
+     assumptions=["writes are observed as changed bytes: a write of the value already present is invisible (canaries are pseudo-random, per case)",
+                  "jwk.FromRaw([]byte) keeps the caller's slice (true for lestrrat-go/jwx v2.0.21), so key bytes are checked in place",
+                  "the independent implementations of refcrypto build valid inputs for the decryption paths"],
+     technique="property-based testing (rapid) + deterministic sweep over (function, argument position, algorithm, path) with canary buffers around every slice argument",
+     level_text="Generated-input search: every case runs the real dapr/kit function on arguments living inside guarded canary buffers and compares "
+                "guards, argument bytes and spare capacity with a saved copy. Exhaustive over (function, algorithm, path, dst form) for the listed "
+                "length and capacity patterns; sampled beyond. No absence claim.",
+     level_note="In-place AEAD forms allowed by the cipher.AEAD contract (Seal(plaintext[:0],...), Open(ciphertext[:0],...)) make the argument the "
+                "destination, so only its guards are checked there. A panic of the callee is not a C17 verdict (memory is still compared). "
+                "Result slices that live in an argument's memory are counted as informational classes only.",
      timeout_quick=600, timeout_thorough=2400)
